@@ -75,6 +75,12 @@ CHECKS = {
                      "value through the writing handle, through the other handle (outside blocks) and the JSON file equal the plain-dict model after every operation, and the buffered run leaves the same documents as the unbuffered run. Two open known findings (dependency behaviour).",
                 note="Trusted: MemFS incl. stat/mtime (validated against tmpfs on every run). synced_collections is exercised as is. Outside: concurrent external modification, capacities other than 0/default, H5.",
                 ref="DESIGN.md §4 C05"),
+    "C12": dict(tech="SMT-backed symbolic execution (CrossHair+z3) over a symbolic schedule vector: actors run the real init/document code natively on a shared in-memory POSIX model, every file-system step is a scheduling point decided by the solver (sleep-set reduction, stated pre-emption bound)",
+                text="Bounded proof: for every pair of actor scripts from {init same job, init own job, write own document, read the other's document, len+iterate, create workspace then init}, from empty and populated workspaces, "
+                     "every interleaving of their file-system steps (up to the sleep-set reduction) with at most 2 (quick) / 4 (thorough) pre-emptions, and three actors with 1 pre-emption (thorough): no actor raises, no read of a state point or document ever returns unparsable bytes, "
+                     "check() passes afterwards, exactly the requested jobs exist, documents hold a writer's value, completed writes are visible to later reads.",
+                note="Trusted: MemFS atomic steps; actors are coroutine threads sharing only MemFS (per-actor lock table / temp names). Outside: >3 actors, same-document writers, schedules beyond the pre-emption bound, reading state points of jobs that are concurrently being created.",
+                ref="DESIGN.md §4 C12"),
 }
 NOT_YET = {}
 
